@@ -6,9 +6,9 @@ import pathspec
 import impl, oracle
 from impl import cminx
 
-NAMES = ['a', 'b', 'c', 'mod', 'x.y', 'd-e', 'aa', 'ab', 'ac', 'e1', 'e2', 'e3', 'Z', 'útf', 'tc.cmake.in', 'P.cmake', 'v1.2.x']
+NAMES = ['a', 'b', 'c', 'mod', 'x.y', 'd-e', 'aa', 'ab', 'ac', 'e1', 'e2', 'e3', 'Z', 'útf', 'tc.cmake.in', 'P.cmake', 'v1.2.x', '.hid']
 EXTS = ['.cmake', '.cmake', '.cmake', '.cmake', '.CMake', '.CMAKE', '.txt', '', '.cmake.in', '.cmake~']
-DIRS = ['sub', 'deep', 'aa', 'ab', 'ac', 'build', 'x.d', 'cmake', 'T-1']
+DIRS = ['sub', 'deep', 'aa', 'ab', 'ac', 'build', 'x.d', 'cmake', 'T-1', 'tmpl.cmake', '.dot']
 PATTERNS = ['aa/', 'ab/', 'ac/', 'build', 'sub/', '*.txt', 'a.cmake', 'b.cmake', 'c.cmake', '**/deep/*.cmake', 'mod.*', 'x.d/',
             'aa.cmake', 'ab.cmake', 'ac.cmake', 'e1.cmake', 'e2.cmake', 'e3.cmake', '*.cmake', 'sub/*.cmake', '/nomatch', 'deep/',
             '{INP}/sub/a.cmake', '{INP}/aa/', '**/ab/', 'a*', '!a.cmake', 'cmake/']
@@ -56,11 +56,17 @@ def permute(g, children, mode):
     return ch
 
 
-def materialize(path, children):
+def materialize(path, children, link_dir=None):
+    """a child with `symlink: True` is created as a symbolic link to a regular file outside the input tree (in link_dir)"""
     os.makedirs(path, exist_ok=True)
     for c in children:
         p = os.path.join(path, c['name'])
-        if 'children' in c: materialize(p, c['children'])
+        if 'children' in c: materialize(p, c['children'], link_dir)
+        elif c.get('symlink') and link_dir:
+            os.makedirs(link_dir, exist_ok=True)
+            tgt = os.path.join(link_dir, 'shared_%d_%s' % (len(os.listdir(link_dir)), c['name']))
+            with open(tgt, 'wb') as f: f.write(c['content'].encode('utf-8'))
+            os.symlink(tgt, p)
         else:
             with open(p, 'wb') as f: f.write(c['content'].encode('utf-8'))
 
@@ -150,7 +156,7 @@ def run_real(sb_dir, case, variant='v0', cwd_mode=None, loc='loc', keep_inputs=F
         parent = os.path.join(base, loc, 'i%d' % k)
         p = os.path.join(parent, inp['name'])
         if keep_inputs and os.path.exists(p): pass       # second run over the very same files (mtimes untouched)
-        elif inp['kind'] == 'dir': materialize(p, inp['children'])
+        elif inp['kind'] == 'dir': materialize(p, inp['children'], os.path.join(base, 'vendor_q7'))
         elif inp['kind'] == 'file':
             os.makedirs(parent, exist_ok=True)
             with open(p, 'wb') as f: f.write(inp['content'].encode('utf-8'))
